@@ -5,9 +5,6 @@ Helper lemmas for C18 (path containment).
 namespace PB.Paths
 open PB
 
-/-- ASCII string literal as a path (for the examples). -/
-def B (s : String) : Path := s.toList.map (fun c => UInt8.ofNat c.toNat)
-
 /-! ### splitSep / joinSep -/
 
 theorem splitSep_ne_nil (p : Path) : splitSep p ≠ [] := by
@@ -74,9 +71,6 @@ theorem splitSep_joinSep {ss : List Path} (hne : ss ≠ []) (h : ∀ s ∈ ss, (
       simp
 
 /-! ### Normal segments and lexical resolution -/
-
-/-- A proper directory entry name: not empty, not `.`, not `..`, no separator. -/
-def Normal (s : Path) : Prop := s ≠ [] ∧ s ≠ dot ∧ s ≠ dotdot ∧ (47 : UInt8) ∉ s
 
 /-- Empty-or-normal: the segments that never pop the stack. -/
 def Benign (s : Path) : Prop := s = [] ∨ Normal s
